@@ -2,13 +2,13 @@ import vlib
 
 class P(vlib.Prop):
     id = "C08"
-    rule = ("history stage: hand-picked histories first (every known-finding replay; the scenarios the per-call clone, the copy of the disqualification map "
+    rule = ("history stage: hand-picked histories first (every known-finding and fixed-finding replay - C08-F1/F3 install_if order and chain membership, fixed by c03e0c0 -; install_if chains, name=version keys, several packages per key; the scenarios the per-call clone, the copy of the disqualification map "
             "and the explicit tie-breaks exist for; positive controls), then generated histories of 3-6 ResolveWorld-style calls "
             "(NewPkgResolver + GetPackagesWithDependencies through the public API) over 2-4 shared index objects: the same index list under different worlds, "
-            "the same world over different index lists and orders, nil / single- / multi-architecture groupings, universes with install_if (1 in 5) and "
+            "the same world over different index lists and orders, nil / single- / multi-architecture groupings, universes with install_if (2 in 5: several triggers, chains through appended packages and through name=version, two versions under one key, entries on provided names) and "
             "regrouped index sets (1 in 7, outside the envelope). Every history is repeated R times from empty caches (R = 12 quick, 30 thorough; this samples Go's "
-            "map iteration orders) and every call R times on fresh caches (reset hook; additionally in a fresh PROCESS for the corpus and a sample); the sets of distinct "
-            "outcomes, the cached disqualification entry before/after each call, the cached prototypes' state and the memo tables' consistency go to Coq. "
+            "map iteration orders) and every call R times on fresh caches (reset hook; additionally in a fresh PROCESS for the corpus and a sample, which must agree with the reset oracle, install_if universes included); the sets of distinct "
+            "outcomes - each of which must EQUAL the sequential resolver model on the disqualification set the cache model hands out -, the cached disqualification entry before/after each call, the cached prototypes' state and the memo tables' consistency go to Coq. "
             "conc stage (EXPLORATION supporting the model; -race build): N goroutines (8 quick, 64 thorough) run rotations of a call pool over shared index objects and "
             "over private copies, after a sequential prefix, in a child process whose race reports are collected; each result is compared with the sequential fresh-cache oracle. "
             "indexcache stage: GetRepositoryIndexes over local synthetic repositories, each step compared with never-read copies of the directories. "
@@ -26,8 +26,10 @@ class P(vlib.Prop):
     )
     level_text = ("Theorems about an executable model of the cache layer over an explicit store (references for selected / nameMap / installIfMap and their slices / "
                   "disqualification maps; the two tries; clone allocates exactly what PkgResolver.Clone and maps.Clone copy): c08_frame, c08_history_independent for every "
-                  "history and call (under the stated grouping hypothesis), its failure with the clone removed, c08_memo_transparent, and the refutations c08_dq_cache_key "
-                  "(C08-F2) and c08_order_deterministic (C08-F1) with the partial that does hold. The verified validator c08_validator_decides is run on the outcomes of the real "
+                  "history and call (under the stated grouping hypothesis), its failure with the clone removed, c08_memo_transparent, the refutation c08_dq_cache_key "
+                  "(C08-F2), and - since fix c03e0c0 turned the install_if loop into a walk over the dependency list by index - c08_order_deterministic in full (one result, members and order, "
+                  "for every universe, world and disqualification set; formerly refuted, findings C08-F1/F3) with c08_install_if_chain_complete (a package triggered by packages the loop itself "
+                  "appended is appended too). The verified validator c08_validator_decides is run on the outcomes of the real "
                   "code after histories, on fresh caches and in fresh processes; the model of the disqualification trie is compared with the entries the real trie holds before and after every call.")
     level_note = ("trusted: Coq kernel, Go harness/printer, the reset hook (cross-checked against fresh processes); modelled not verified: the Go text of the cache layer and of the resolver core; "
                   "data races and interleavings are explored with the race detector, not proved; correspondence is differential testing, not proof")
